@@ -6,6 +6,7 @@ from . import core
 from .core import Unsupported, box, concretize_int, is_sym, raw, r_cmp, to_z3, decide
 
 CAP = 4            # cap on forked sizes / multiplicities (recorded as an assumption when hit)
+MULT_CAP = [None]  # optional cap on array-valued binomial/poisson draws (single-pass multiplicities); recorded as a cut
 TAPE = [None]      # concrete replay: list of recorded results to feed back
 
 
@@ -24,9 +25,19 @@ def _bounded_int(tag, lo, hi):
     ex = core.cur()
     v = ex.fresh_int(tag)
     ex.assume(z3.And(v >= to_z3(lo), v <= to_z3(hi)))
-    ex.inputs_rng = getattr(ex, "inputs_rng", [])
     ex.inputs_rng.append(v)
     return v
+
+
+def _cap_mult(cells):
+    if MULT_CAP[0] is not None:
+        ex = core.cur()
+        for c in cells:
+            if is_sym(c):
+                ex.assume(c <= MULT_CAP[0])
+        cut = f"array-valued binomial/poisson draws (single-pass multiplicities) <= {MULT_CAP[0]}"
+        if cut not in ex.cuts:
+            ex.cuts.append(cut)
 
 
 def _size_tuple(size):
@@ -63,6 +74,7 @@ def binomial(n, p, size=None):
         _log("binomial", {"n": n_, "p": p_, "size": None}, r)
         return box(r)
     cells = [one(n_, p_) for _ in range(snp._prod(shape))]
+    _cap_mult(cells)
     _log("binomial", {"n": n_, "p": p_, "size": shape}, cells)
     return snp.ndarray.new(cells, shape, "i")
 
@@ -75,6 +87,7 @@ def poisson(lam=1.0, size=None):
     def one():
         ex = core.cur()
         v = ex.fresh_int("poisson")
+        ex.inputs_rng.append(v)
         ex.assume(v >= 0)
         ex.assume(z3.Implies(to_z3(lam_, like=z3.RealSort()) == 0, v == 0))
         return v
@@ -84,6 +97,7 @@ def poisson(lam=1.0, size=None):
         _log("poisson", {"lam": lam_, "size": None}, r)
         return box(r)
     cells = [one() for _ in range(snp._prod(shape))]
+    _cap_mult(cells)
     _log("poisson", {"lam": lam_, "size": shape}, cells)
     return snp.ndarray.new(cells, shape, "i")
 
@@ -132,6 +146,7 @@ def normal(loc=0.0, scale=1.0, size=None):
     shape = _size_tuple(size)
     k = 1 if shape is None else snp._prod(shape)
     cells = [ex.fresh_real("normal") for _ in range(k)]
+    ex.inputs_rng.extend(cells)
     _log("normal", {"loc": raw(loc), "scale": raw(scale), "size": shape}, cells)
     if shape is None:
         return box(cells[0])
